@@ -64,8 +64,10 @@ class Sink:
 # (i) extrapolation
 # ======================================================================================================================
 EXTRAP_CFG = """CONSTANTS Vals <- %s
+MinN = %d
 MaxN = %d
-CoefVals <- CoefQuick
+SortedFrom = %d
+CoefVals <- %s
 Export = TRUE
 INIT Init
 NEXT Next
@@ -109,10 +111,10 @@ def extrap_calls(api, tr, variant):
         calls += [("richardson", lambda: api["richardson"](c, E, s), True), ("richardson:no-stderr", lambda: api["richardson"](c, E), False),
                   ("richardson_analytical", lambda: api["richardson_analytical"](c, E, s), True)]
     elif f == "extrapolation":
-        calls += [("extrapolation:order=%d" % k, lambda: api["extrapolation"](c, E, s, k), True)]
+        calls += [("extrapolation:order=%d" % k if k < 5 else "extrapolation:high-order:n=%d" % n, lambda: api["extrapolation"](c, E, s, k), True)]
         if k == n - 1:
-            calls += [("extrapolation:default-order", lambda: api["extrapolation"](c, E, s), True),
-                      ("extrapolation:no-stderr", lambda: api["extrapolation"](c, E), False)]
+            calls += [("extrapolation:default-order" if k < 5 else "extrapolation:high-order:n=%d:default" % n, lambda: api["extrapolation"](c, E, s), True),
+                      ("extrapolation:no-stderr" if k < 5 else "extrapolation:high-order:n=%d:no-stderr" % n, lambda: api["extrapolation"](c, E), False)]
     elif f == "diis":
         calls += [("diis", lambda: api["diis"](c, E, s), True), ("diis:no-stderr", lambda: api["diis"](c, E), False)]
     elif f == "richardson_exp":
@@ -214,27 +216,36 @@ def corrupt_extrap(api):
 
 def part_extrap(chk):
     api = extrap_api()
-    vals, maxn = ("ValsQuick", 4) if chk.quick else ("ValsThorough", 4)
-    r = tlc.run("X06Extrap", EXTRAP_CFG % (vals, maxn), "x06/extrap", workers=4 if chk.quick else 8, coverage=True, timeout=3600)
-    if not r.ok:
-        raise tlc.TLCError("X06Extrap spec violated: %s\n%s" % (r.violated, r.out[-1500:]))
+    # all orders of the points for n <= 4; the repo's own usage (factors 1..n, n up to 7) in ascending order only
+    cfgs = [EXTRAP_CFG % ("ValsQuick" if chk.quick else "ValsThorough", 1, 4, 9, "CoefQuick"),
+            EXTRAP_CFG % ("ValsWide", 7 if chk.quick else 5, 7, 1, "CoefWide")]
+    r, rw = tlc.run_many([dict(module="X06Extrap", cfg=cfgs[0], name="x06/extrap", workers=4 if chk.quick else 8, coverage=True, timeout=3600),
+                          dict(module="X06Extrap", cfg=cfgs[1], name="x06/extrap_wide", workers=2, timeout=3600)], max_parallel=2)
+    for x in (r, rw):
+        if not x.ok:
+            raise tlc.TLCError("X06Extrap spec violated: %s\n%s" % (x.violated, x.out[-1500:]))
+    chk.add_tlc(rw, "extrap_S_wide")
     chk.add_tlc(r, "extrap_S")
     cov = r.coverage_counts()
     acts = {a: cov.get(a, (0, 0))[1] for a in ("SetData", "CallRichardson", "CallExtrap", "CallDiis", "CallExpEst")}
     if min(acts.values()) == 0:
         raise tlc.TLCError("X06Extrap: action never taken: %s" % acts)
     chk.part("extrap_coverage", **acts)
-    trs = r.prints("TR")
-    if len(trs) < 1000:
+    trs = r.prints("TR") + rw.prints("TR")
+    if len(trs) < 1000 or not any(len(t["c"]) == 7 for t in trs):
         raise tlc.TLCError("X06Extrap: only %d transitions exported" % len(trs))
     sink = Sink(chk)
     ncalls = 0
+    nviol = len(chk.violations)
     for idx, tr in enumerate(trs):
         ncalls += extrap_compare(api, tr, idx % 4, sink)
     chk.add_traces(len(trs), "extrap_G")
     chk.part("extrap_G", calls=ncalls, per_function={f: sum(1 for t in trs if t["f"] == f) for f in ("richardson", "extrapolation", "diis", "richardson_exp")})
     chk.sample({"extrap_transition": trs[len(trs) // 2]})
-    # negative controls on a slice of the same transitions
+    # negative controls on a slice of the same transitions (wrappers around the real functions: meaningful only
+    # when the real functions themselves passed)
+    if len(chk.violations) > nviol:
+        return
     rng = random.Random(chk.seed)
     sub = rng.sample(trs, min(len(trs), 600 if chk.quick else 3000))
     ctl = {}
@@ -529,6 +540,7 @@ def corrupt_roto(rmod):
 
 def part_roto(chk):
     rmod = roto_module()
+    nviol = len(chk.violations)
     rng = random.Random(chk.seed + 11)
     plan = [(2, 10, "0, 1, 2, 3", "1, 2, 3, 4")] if chk.quick else [(2, 40, "0, 1, 2, 3, 4", "1, 2, 3, 4, 5"), (3, 12, "1, 2, 3", "1, 2, 4")]
     allgroups = []
@@ -575,7 +587,9 @@ def part_roto(chk):
         chk.part("roto_G_n%d" % n, closure_runs=len(keys), circuit_runs=len(pick), isolated_steps=nst, inconclusive=chk.inconclusive - inc0)
         chk.sample({"roto_behaviour": groups[keys[len(keys) // 2]][0], "objective": objs[keys[len(keys) // 2][0] - 1]})
         allgroups.append((n, objs, groups, pick))
-    # negative controls
+    # negative controls (patches on top of the real module: meaningful only when the real module passed)
+    if len(chk.violations) > nviol:
+        return
     n, objs, groups, pick = allgroups[0]
     ctl = {}
     sub = rng.sample(sorted(groups), min(len(groups), 400))
@@ -605,7 +619,7 @@ INVARIANT TotalsAgree
 INVARIANT LimitBasins
 INVARIANT ExportRun
 """
-MW_BOUND = 2 ** 20
+MW_BOUND = 2 ** 25
 DEFAULT_CONV = [1, 10 ** 7]
 
 
@@ -691,7 +705,7 @@ def mw_jobs(rng, quick):
     F = Fraction
     noisy_vals = [F(3, 4), F(1, 4), F(5, 4), F(-1, 4), F(7, 8), F(1, 8), F(1), F(0), F(0), F(1)]
     convs_all = [[2, 1], [9, 10], [1, 2], [1, 8], [1, 100], DEFAULT_CONV]
-    plan = [(2, 24 if quick else 80), (4, 5 if quick else 24)]
+    plan = [(2, 24 if quick else 80), (4, 8 if quick else 24)]
     for n, count in plan:
         d = n * n
         for it in range(count):
@@ -738,6 +752,31 @@ def mw_jobs(rng, quick):
     return jobs
 
 
+class TimeLimit(Exception):
+    pass
+
+
+class time_limit:
+    """The purification loop has no iteration bound: a run that does not come back is reported, not waited for."""
+
+    def __init__(self, seconds):
+        self.seconds = seconds
+
+    def __enter__(self):
+        import signal
+
+        def handler(*a):
+            raise TimeLimit()
+        self.old = signal.signal(signal.SIGALRM, handler)
+        signal.alarm(self.seconds)
+
+    def __exit__(self, *a):
+        import signal
+        signal.alarm(0)
+        signal.signal(signal.SIGALRM, self.old)
+        return False
+
+
 def mw_fn():
     from tangelo.toolboxes.post_processing import mcweeny_purify_2rdm
     return mcweeny_purify_2rdm
@@ -766,7 +805,11 @@ def mw_compare(fn, job, run_, sink, noisy_job=None, tol=1e-9):
         sink.inconclusive()
         return
     try:
-        r1, r2 = fn(arr, conv=conv) if (run_["conv"] != DEFAULT_CONV and noisy_job is None) else fn(arr)
+        with time_limit(20):
+            r1, r2 = fn(arr, conv=conv) if (run_["conv"] != DEFAULT_CONV and noisy_job is None) else fn(arr)
+    except TimeLimit:
+        sink.violation("mcweeny:no-termination", "no result within 20 s on input %s (%s), conv=%s" % (src["id"], src["tag"], run_["conv"]), case)
+        return
     except Exception as ex:
         sink.violation("mcweeny:exception", "%r on input %s (%s)" % (ex, src["id"], src["tag"]), case)
         return
@@ -837,6 +880,7 @@ def part_mcweeny(chk):
     chk.part("mcweeny_runs", inputs=len(jobs), inputs_4_spin_orbitals=len(big), **acts, **classes)
     sink = Sink(chk)
     nlim = 0
+    nviol = len(chk.violations)
     for x in done:
         jb = byid[x["id"]]
         mw_compare(fn, jb, x, sink)
@@ -848,15 +892,192 @@ def part_mcweeny(chk):
     chk.add_traces(len(done) + nlim, "mcweeny_G")
     chk.part("mcweeny_G", exact_runs=len(done), limits=nlim)
     chk.sample({"mcweeny_run": {k: v for k, v in done[len(done) // 2].items() if k != "rdm2"}})
+    if len(chk.violations) > nviol:
+        return
     ctl = {}
     for name, bad in corrupt_mw(fn).items():
         s_ = Sink()
         for x in done:
-            mw_compare(bad, byid[x["id"]], x, s_)
+            if x["steps"] == 0 or name != "input not transposed":      # (that corruption need not terminate when it iterates)
+                mw_compare(bad, byid[x["id"]], x, s_)
         ctl[name] = len(s_.hits)
         if not s_.hits:
             raise tlc.TLCError("X06 negative control not detected: %s" % name)
     chk.part("mcweeny_negative_controls", **ctl)
+
+# ======================================================================================================================
+# (iv) bootstrapping and (ii-V) unscripted optimiser runs, judged by spec/X06Trace.tla
+# ======================================================================================================================
+FIX = 10 ** 6          # fixed-point unit of the recorded energies
+
+
+def resample_fn():
+    from tangelo.toolboxes.post_processing.bootstrapping import get_resampled_frequencies
+    return get_resampled_frequencies
+
+
+def record_resample(fn, jid, width, weights, ncount, seed, stat=False, explicit_zero=True):
+    """weights: {key int: integer weight}; zero weights are passed as explicit 0.0 entries when explicit_zero."""
+    wtot = sum(weights.values())
+    freq = {format(k, "0%db" % width): w / wtot for k, w in weights.items() if w > 0 or explicit_zero}
+    np.random.seed(seed)
+    out = fn(dict(freq), ncount)
+    np.random.seed(seed)
+    again = fn(dict(freq), ncount)
+    keys = []
+    for k, v in out.items():
+        ok = isinstance(k, str) and k != "" and set(k) <= {"0", "1"}
+        c = v * ncount
+        keys.append([int(k, 2) if ok else -1, len(k) if ok else -1, int(round(c)) if abs(c - round(c)) < 1e-6 else -1])
+    sup = sorted(k for k, w in weights.items() if w > 0)
+    return {"id": jid, "kind": "resample", "width": width, "support": sup, "weights": [weights[k] for k in sup], "wtot": wtot,
+            "ncount": ncount, "keys": keys, "stat": stat, "seed": seed, "in": {format(k, "0%db" % width): w for k, w in weights.items()},
+            "explicit_zero": explicit_zero}, out == again
+
+
+def resample_inputs(rng, quick):
+    cases = []
+    for it in range(40 if quick else 200):
+        width = rng.randrange(1, 5)
+        keys = rng.sample(range(2 ** width), rng.randrange(1, min(2 ** width, 6) + 1))
+        tot = rng.choice([2, 4, 8, 16])
+        cuts = sorted(rng.randrange(tot + 1) for _ in range(len(keys) - 1))
+        ws = [b - a for a, b in zip([0] + cuts, cuts + [tot])]
+        if not any(ws):
+            ws[0] = tot
+        cases.append((width, dict(zip(keys, ws)), rng.choice([1, 7, 100, 1000]), False, it % 2 == 0))
+    for it in range(6 if quick else 30):       # statistics: 2000 shots, every count within 6 sigma
+        width = rng.randrange(1, 4)
+        keys = rng.sample(range(2 ** width), rng.randrange(2, 2 ** width + 1))
+        ws = [rng.choice([1, 1, 2, 3, 5]) for _ in keys]
+        pad = 16 - sum(ws)
+        if pad > 0:
+            ws[0] += pad
+        cases.append((width, dict(zip(keys, ws)), 2000, True, False))
+    if not quick:                               # crosses the internal chunk size of 10^7 samples
+        cases.append((2, {0: 1, 3: 1, 2: 0}, 10 ** 7 + 3, False, True))
+    return cases
+
+
+def tail_objective(rng, nq):
+    """An entangling circuit with every parameter in exactly one rotation gate, and a random qubit operator."""
+    from tangelo.linq import Gate, Circuit, get_backend
+    from tangelo.toolboxes.operators import QubitOperator
+    from tangelo.toolboxes.ansatz_generator import VariationalCircuitAnsatz
+    if "sim" not in _SIM:
+        _SIM["sim"] = get_backend("cirq")
+    gates = []
+    for layer in range(2):
+        gates += [Gate(rng.choice(["RX", "RY", "RZ"]) if layer else rng.choice(["RX", "RY"]), q, parameter=0.0, is_variational=True) for q in range(nq)]
+        gates += [Gate("CNOT", q + 1, q) for q in range(nq - 1)]
+    ansatz = VariationalCircuitAnsatz(Circuit(gates, n_qubits=nq))
+    ansatz.build_circuit()
+    op = QubitOperator()
+    for _ in range(4):
+        term = tuple((q, rng.choice("XYZ")) for q in range(nq) if rng.random() < 0.6)
+        op += QubitOperator(term, rng.choice([-1.0, 0.5, 0.75, 1.5]))
+
+    def f(params):
+        ansatz.update_var_params(list(params))
+        return float(np.real(_SIM["sim"].get_expectation_value(op, ansatz.circuit)))
+    return f, 2 * nq
+
+
+def record_rotorun(rmod, jid, f, npar, p0, ftol, maxiter):
+    evals, steps = [], []
+
+    def wrapped(params, *a):
+        val = f(params)
+        evals.append(val)
+        return val
+    orig = rmod.rotosolve_step
+
+    def step(fn, var_params, i, *a):
+        out = orig(fn, var_params, i, *a)
+        steps.append(len(evals))
+        return out
+    rmod.rotosolve_step = step
+    try:
+        e, p = rmod.rotosolve(wrapped, list(p0), ftol=ftol, maxiter=maxiter)
+    finally:
+        rmod.rotosolve_step = orig
+    fx = lambda x: int(round(float(x) * FIX))
+    sweeps = [fx(evals[pos]) for k, pos in enumerate(steps) if (k + 1) % npar == 0 and pos < len(evals)]
+    return {"id": jid, "kind": "rotorun", "n": npar, "maxiter": maxiter, "ftol": fx(ftol), "e0": fx(evals[0]), "sweeps": sweeps,
+            "ret": fx(e), "fret": fx(f(list(p))), "nsteps": len(steps), "slack": 2}
+
+
+def part_trace(chk):
+    fn = resample_fn()
+    rmod = roto_module()
+    rng = random.Random(chk.seed + 37)
+    jobs, nondet = [], []
+    for width, weights, ncount, stat, ez in resample_inputs(rng, chk.quick):
+        jb, same = record_resample(fn, len(jobs) + 1, width, weights, ncount, chk.seed + len(jobs), stat, ez)
+        jobs.append(jb)
+        if not same:
+            nondet.append(jb)
+    nres = len(jobs)
+    for it in range(6 if chk.quick else 30):
+        nq = 2 + it % 2
+        f, npar = tail_objective(rng, nq)
+        p0 = [rng.uniform(-math.pi, math.pi) for _ in range(npar)]
+        jobs.append(record_rotorun(rmod, len(jobs) + 1, f, npar, p0, rng.choice([1e-5, 1e-3, 1e-2]), rng.choice([1, 2, 4, 30])))
+    # negative controls: one corrupted field per record type must be rejected with the expected verdict
+    controls = []
+
+    def ctl(src, expect, **changes):
+        jb = copy.deepcopy(src)
+        jb.update(changes)
+        jb["id"] = len(jobs) + len(controls) + 1
+        controls.append((jb, expect))
+    # the base records are hand-written (independent of the code under test) and must be accepted as they are
+    a = {"kind": "resample", "width": 3, "support": [1, 4, 6], "weights": [8, 4, 4], "wtot": 16, "ncount": 2000,
+         "keys": [[1, 3, 1010], [4, 3, 480], [6, 3, 510]], "stat": True}
+    ctl(a, "ok")
+    ctl(a, "key-outside-support", keys=[[5, 3, 1010], [4, 3, 480], [6, 3, 510]])
+    ctl(a, "count-sum", keys=[[1, 3, 1011], [4, 3, 480], [6, 3, 510]])
+    ctl(a, "bad-width", keys=[[1, 4, 1010], [4, 3, 480], [6, 3, 510]])
+    ctl(a, "duplicate-key", keys=[[1, 3, 1010], [4, 3, 480], [4, 3, 510]])
+    ctl(a, "bad-count", keys=[[1, 3, 1010], [4, 3, 990], [6, 3, 0]])
+    ctl(a, "bad-count", keys=[[1, 3, 1010], [4, 3, -1], [6, 3, 510]])
+    ctl(a, "outside-6-sigma", keys=[[1, 3, 610], [4, 3, 880], [6, 3, 510]])
+    ctl(a, "outside-6-sigma", keys=[[1, 3, 1500], [4, 3, 500]])          # an absent key counts as 0
+    r0 = {"kind": "rotorun", "n": 3, "maxiter": 5, "ftol": 1000, "e0": 0, "sweeps": [-500000, -600000, -600500],
+          "ret": -600500, "fret": -600501, "nsteps": 9, "slack": 2}
+    ctl(r0, "ok")
+    ctl(r0, "ok", maxiter=3, sweeps=[-500000, -600000, -700000], ret=-700000, fret=-700000)        # stopped by maxiter
+    ctl(r0, "energy-increased", sweeps=[-500000, -499000, -499500], ret=-499500, fret=-499500)
+    ctl(r0, "returned-energy", ret=-600000)
+    ctl(r0, "energy-is-not-f(params)", fret=-600540)
+    ctl(r0, "step-count", nsteps=8)
+    ctl(r0, "stop-early", sweeps=[-500000, -600000], ret=-600000, fret=-600000, nsteps=6)
+    ctl(r0, "stop-late", sweeps=[-500000, -600000, -600500, -600600], ret=-600600, fret=-600600, nsteps=12)
+    ctl(r0, "sweep-count", sweeps=[], nsteps=0, ret=0, fret=0)
+    ctl(r0, "sweep-count", maxiter=2)
+    allj = jobs + [c for c, _ in controls]
+    slim = [{k: v for k, v in j.items() if k not in ("in", "seed", "explicit_zero")} for j in allj]
+    verdicts, results = tlc.judge("X06Trace", slim, "x06/trace", {}, max_parallel=2)
+    for r in results:
+        chk.add_tlc(r, "trace_V")
+    for jb, expect in controls:
+        if verdicts[jb["id"]] != expect:
+            raise tlc.TLCError("X06Trace negative control: expected %s, got %s for %s" % (expect, verdicts[jb["id"]], {k: v for k, v in jb.items() if k != "in"}))
+    for jb in jobs:
+        v_ = verdicts[jb["id"]]
+        if v_ != "ok":
+            if jb["kind"] == "resample":
+                chk.violation("bootstrapping:" + v_, "get_resampled_frequencies(%s, %d) under seed %d returned %s: %s" % (
+                    jb["in"], jb["ncount"], jb["seed"], jb["keys"], v_), {"part": "resample", "job": jb})
+            else:
+                chk.violation("rotosolve:run:" + v_, "recorded run %s: %s" % ({k: jb[k] for k in ("e0", "sweeps", "ret", "fret", "nsteps", "ftol", "maxiter")}, v_), {"part": "rotorun", "job": jb})
+    for jb in nondet:
+        chk.violation("bootstrapping:not-deterministic", "two calls under np.random.seed(%d) differ for %s" % (jb["seed"], jb["in"]), {"part": "resample", "job": jb})
+    chk.add_traces(len(jobs), "trace_V")
+    chk.part("trace_V", resamples=nres, with_zero_weight_keys=sum(1 for j in jobs[:nres] if len(j["in"]) > len(j["support"]) and j["explicit_zero"]),
+             statistical=sum(1 for j in jobs[:nres] if j["stat"]), optimiser_runs=len(jobs) - nres,
+             runs_stopped_by_tolerance=sum(1 for j in jobs[nres:] if len(j["sweeps"]) < j["maxiter"]), negative_controls=sorted({e for _, e in controls}))
+    chk.sample({"resample_record": {k: v for k, v in jobs[0].items()}})
 
 
 # ======================================================================================================================
@@ -868,6 +1089,8 @@ def run(chk):
         part_roto(chk)
     if not only or "mcweeny" in only:
         part_mcweeny(chk)
+    if not only or "trace" in only:
+        part_trace(chk)
     chk.cov["rule"] = "TLC-exported transitions/behaviours of X06Extrap, X06Rotosolve, X06McWeeny replayed on the real functions; recorded resamples and optimiser runs judged by X06Trace"
     chk.assumptions += [
         "floats are compared with TLC's exact rationals / Z[sqrt 2] values: 1e-9 relative (analytic formulas), 1e-7 (lstsq on the DIIS equations), 2e-4 (exponent found by BFGS)",
@@ -884,6 +1107,17 @@ def replay(chk, rec):
                      tol=1e-9 if case["kind"] == "closure" else 1e-7)
     elif case["part"] == "mcweeny":
         mw_compare(mw_fn(), case["job"], case["run"], sink, noisy_job=case["noisy"], tol=1e-6 if case["noisy"] else 1e-9)
+    elif case["part"] == "resample":
+        jb = case["job"]
+        w = {int(k, 2): v for k, v in jb["in"].items()}
+        new, same = record_resample(resample_fn(), 1, jb["width"], w, jb["ncount"], jb["seed"], jb["stat"], jb["explicit_zero"])
+        slim = {k: v for k, v in new.items() if k not in ("in", "seed", "explicit_zero")}
+        verdicts, _ = tlc.judge("X06Trace", [slim], "x06/replay", {}, max_parallel=1)
+        print("replay: verdict %s, deterministic %s" % (verdicts[1], same))
+        return verdicts[1] == "ok" and same
+    elif case["part"] == "rotorun":
+        print("recorded run (random objective, not re-executed):", case["job"])
+        return True
     elif case["part"] == "roto_step":
         roto_step_compare(roto_module(), [case["obj"]], case["n"], dict(case["beh"], o=1), sink, case["kind"],
                           tol=1e-9 if case["kind"] == "closure" else 1e-7)
